@@ -74,11 +74,15 @@ def gen(rng, tier):
     cases = []
     for g in range(n):
         s = G.gen_name_collision(rng) if g == 3 else coincident(rng, flitch=(g % 8 == 0)) if g % 4 == 0 else (G.gen_twins(rng) if g % 4 == 2 else (G.gen_solvable(rng) if g % 2 else G.gen_frame(rng, max_cells=1)))
+        if g % 8 == 5:
+            # a support no bar is linked to, beside the ordinary supports (valid input: a node left over after a bar was removed)
+            s = G.with_unused_node(coincident(rng, flitch=False), rng)
+            s.nodes["unused"] = s.nodes["unused"][:2] + ((True, True, True),)
         if len(s.bars) > 5:
             s.bars = s.bars[:5]
             ids = {b["id"] for b in s.bars}
             s.loads = [l for l in s.loads if l["bar"] in ids]
-            used = {b["n1"] for b in s.bars} | {b["n2"] for b in s.bars}
+            used = {b["n1"] for b in s.bars} | {b["n2"] for b in s.bars} | ({"unused"} if "unused" in s.nodes else set())
             s.nodes = {k: v for k, v in s.nodes.items() if k in used}
         base = L.layout(rng, s, plain=True)
         w = (g % 3 == 0) and s.meta["kind"] != "coincident-bars/flitch"     # with their weight on, the two members of a flitch beam carry different loads
